@@ -131,6 +131,38 @@ def run(chk: Check) -> None:
         r1.ok("propagation loop: find_targets_recursive before reprocess_nodes; stale protocol caches reset", pc.loc(fr[0].stmt))
     else:
         r1.violation("propagation loop: find_targets_recursive before reprocess_nodes; stale protocol caches reset", pc.loc(), "targets are reprocessed without recomputing the affected set / without resetting protocol subtype caches")
+    # every stale protocol is reset, unconditionally, before the first target is re-processed
+    from ..cfg import branch_conditions
+    parp = pc.module.parents()
+    rcalls = [c for c in ast.walk(pc.node) if isinstance(c, ast.Call) and call_name(c) == "reset_subtype_caches_for"]
+    key = "propagation loop: the subtype caches of *all* stale protocols are reset before any target is re-processed"
+    okr = False
+    whyr = "no reset_subtype_caches_for call"
+    if rcalls:
+        st_ = rcalls[0]
+        while not isinstance(st_, ast.stmt):
+            st_ = parp[st_]
+        pos_, neg_ = branch_conditions(parp, pc.node, st_)
+        enclosing = []
+        p_ = parp.get(st_)
+        while p_ is not None and p_ is not pc.node:
+            if isinstance(p_, ast.For):
+                enclosing.append(p_)
+            p_ = parp.get(p_)
+        rep_loops = [l for l in ast.walk(pc.node) if isinstance(l, ast.For) and any(isinstance(c, ast.Call) and call_name(c) == "reprocess_nodes" for c in ast.walk(l))]
+        whyr = ""
+        if pos_ or neg_:
+            whyr = f"the reset is conditional on {[norm(x) for x in pos_ + neg_]}"
+        elif len(enclosing) != 1 or "stale_protos" not in norm(enclosing[0].iter):
+            whyr = f"the reset sits in loops over {[norm(l.iter) for l in enclosing]} instead of one loop over the stale protocols"
+        elif not rep_loops or not (enclosing[0].end_lineno < rep_loops[0].lineno):
+            whyr = "the reset loop does not come before the loop that re-processes the targets"
+        else:
+            okr = True
+    if okr:
+        r1.ok(key, pc.loc(rcalls[0]))
+    else:
+        r1.violation(key, pc.loc(rcalls[0]) if rcalls else pc.loc(), whyr + ": a target re-processed earlier is checked against the memoised answers for the protocol's previous implementers (a stale negative entry hides that a class now implements the protocol)")
     # the triggers returned by reprocess_nodes feed the loop condition
     s2 = norm(pc.node)
     if "triggered |= reprocess_nodes(" in s2 and isinstance(head.stmt.test, ast.BoolOp) and "triggered" in norm(head.stmt.test):
